@@ -494,6 +494,24 @@ func init() {
 			})
 		}
 		c.runJobs(jobs)
+		// cross-check of the extraction: what the extracted model answered for a few small files is re-decided
+		// in the kernel on the un-extracted definitions (first_success = what autometa's model returns)
+		if c.runner != nil {
+			nx := 0
+			for _, f := range genC05Files(c) {
+				if len(f.Data) > 1500 || f.HasICCRead || nx >= 18 {
+					continue
+				}
+				ans := c.runner.Ask("meta_first " + hx(f.Data) + " -")
+				if term, ok := coqMeta(ans); ok {
+					nx++
+					xcheck("meta_first", 18, fmt.Sprintf("first_success (fun _ => None) %s = %s", coqBytes(f.Data), term))
+				}
+			}
+			if st := writeXCheck(c.out+"/Gen", "From Coq Require Import List ZArith NArith. From Coq Require Import Strings.Byte. Import ListNotations.\nFrom PrismV Require Import IO.IO IO.Parse Meta.Meta."); st != nil {
+				c.res.GenStages = append(c.res.GenStages, st)
+			}
+		}
 	}
 
 	// ---------- C06 ----------
